@@ -266,15 +266,34 @@ def effective_bounds(node):
 
 
 def reflect_box(lo, hi, q, p):
-    """one lower-wall and then one upper-wall mirror reflection per coordinate, momentum components negated with them (in place)"""
-    if lo is not None:
-        m = q < lo
-        q[m] += 2 * (np.broadcast_to(lo, q.shape)[m] - q[m])
-        p[m] *= -1.0
-    if hi is not None:
-        m = q > hi
-        q[m] += 2 * (np.broadcast_to(hi, q.shape)[m] - q[m])
-        p[m] *= -1.0
+    """Mirror reflection at the walls of the box until the particle is inside, the momentum component negated with every reflection (in place).
+    Written as the billiard it describes (one wall at a time), not as the library computes it; compare with a tolerance of a few ulp of the box."""
+    d = q.shape[0]
+    for i in range(d):
+        l = -np.inf if lo is None else float(np.broadcast_to(lo, q.shape)[i, 0])
+        u = np.inf if hi is None else float(np.broadcast_to(hi, q.shape)[i, 0])
+        x, m = float(q[i, 0]), float(p[i, 0])
+        if not np.isfinite(x) or not (l < u):
+            # the library's two single reflections (nothing to fold in a degenerate box or from infinity)
+            if x < l:
+                x, m = 2 * l - x, -m
+            if x > u:
+                x, m = 2 * u - x, -m
+        else:
+            for _ in range(100000):
+                if x < l:
+                    x, m = 2 * l - x, -m
+                elif x > u:
+                    x, m = 2 * u - x, -m
+                else:
+                    break
+        q[i, 0], p[i, 0] = x, m
+
+
+def reflect_close(a, b, lo, hi):
+    """equality of reflected coordinates up to rounding (a few ulp of the largest number involved)"""
+    sc = max([1.0] + [float(np.max(np.abs(v[np.isfinite(v)]))) for v in (a, b, lo, hi) if v is not None and np.any(np.isfinite(v))])
+    return a.shape == b.shape and bool(np.all((a == b) | (np.abs(a - b) <= 1e-12 * sc)))
 
 
 def expected_reflect(node, q, p):
